@@ -7,6 +7,7 @@
   correspondence check of the C19 stream only sees the generated cases).
 -/
 import AHP.Lemmas.PyAst
+import AHP.Lemmas.PyAstUtils
 namespace AHP.C19Code
 open AHP AHP.Gen AHP.Conv AHP.PyAst AHP.Gen.Code
 
@@ -14,7 +15,7 @@ open AHP AHP.Gen AHP.Conv AHP.PyAst AHP.Gen.Code
 theorem convertToIntOrNegativeOneIfUnset_code_eq_model (parseInt : Str → Except PyErr Int) (v : PyV) :
     runModule parseInt conversions "convertToIntOrNegativeOneIfUnset" [.py v]
       = .ok (.py (Conv.convertToIntOrNegativeOneIfUnset parseInt v)) := by
-  simp only [link_1, run, convertToIntOrNegativeOneIfUnset_ast]
+  simp only [link_1, run, runKw, convertToIntOrNegativeOneIfUnset_ast]
   rcases v with _ | s | n | b | ws | i | w
   case str =>
     rcases s with _ | ⟨c, r⟩
@@ -27,14 +28,14 @@ theorem convertToIntOrNegativeOneIfUnset_code_eq_model (parseInt : Str → Excep
 theorem convertToIntOrNegativeOneIfUnset_code_default (parseInt : Str → Except PyErr Int) :
     runModule parseInt conversions "convertToIntOrNegativeOneIfUnset" []
       = .ok (.py (Conv.convertToIntOrNegativeOneIfUnset parseInt .none)) := by
-  simp only [link_1, run, convertToIntOrNegativeOneIfUnset_ast]
+  simp only [link_1, run, runKw, convertToIntOrNegativeOneIfUnset_ast]
   py_eval; simp [Conv.convertToIntOrNegativeOneIfUnset, isNoneOrEmpty]
 
 /-- `convertToBooleanString(v)` -/
 theorem convertToBooleanString_code_eq_model (parseInt : Str → Except PyErr Int) (v : PyV) :
     runModule parseInt conversions "convertToBooleanString" [.py v]
       = .ok (.py (.str (Conv.convertToBooleanString v))) := by
-  simp only [link_2, run, convertToBooleanString_ast]
+  simp only [link_2, run, runKw, convertToBooleanString_ast]
   rcases v with _ | s | n | b | ws | i | w
   case str =>
     by_cases h1 : lower s = ['f', 'a', 'l', 's', 'e'] <;> by_cases h2 : lower s = ['0'] <;>
@@ -51,14 +52,14 @@ theorem convertToBooleanString_code_eq_model (parseInt : Str → Except PyErr In
 theorem convertToBooleanString_code_default (parseInt : Str → Except PyErr Int) :
     runModule parseInt conversions "convertToBooleanString" []
       = .ok (.py (.str (Conv.convertToBooleanString .none))) := by
-  simp only [link_2, run, convertToBooleanString_ast]
+  simp only [link_2, run, runKw, convertToBooleanString_ast]
   py_eval [Conv.convertToBooleanString, str]
 
 /-- `convertBooleanStringToBoolean(v)` -/
 theorem convertBooleanStringToBoolean_code_eq_model (parseInt : Str → Except PyErr Int) (v : PyV) :
     runModule parseInt conversions "convertBooleanStringToBoolean" [.py v]
       = .ok (.py (.bool (Conv.convertBooleanStringToBoolean v))) := by
-  simp only [link_3, run, convertBooleanStringToBoolean_ast]
+  simp only [link_3, run, runKw, convertBooleanStringToBoolean_ast]
   rcases v with _ | s | n | b | ws | i | w
   case str =>
     rcases s with _ | ⟨c, r⟩
@@ -76,7 +77,7 @@ theorem convertBooleanStringToBoolean_code_eq_model (parseInt : Str → Except P
 theorem convertToPositiveInt_code_eq_model (parseInt : Str → Except PyErr Int) (v : PyV) (invalid : Lit) :
     runModule parseInt conversions "convertToPositiveInt" [.py v, .py invalid.toPy]
       = .ok (.py (Conv.convertToPositiveInt parseInt v invalid)) := by
-  simp only [link_4, run, convertToPositiveInt_ast, Conv.convertToPositiveInt]
+  simp only [link_4, run, runKw, convertToPositiveInt_ast, Conv.convertToPositiveInt]
   generalize invalid.toPy = d
   rcases v with _ | s | n | b | ws | i | w
   case str =>
@@ -94,13 +95,13 @@ theorem convertToPositiveInt_code_default (parseInt : Str → Except PyErr Int) 
     runModule parseInt conversions "convertToPositiveInt" [.py v]
       = .ok (.py (Conv.convertToPositiveInt parseInt v (.int 0))) := by
   have h := convertToPositiveInt_code_eq_model parseInt v (.int 0)
-  simp only [link_4, run, convertToPositiveInt_ast] at h ⊢
+  simp only [link_4, run, runKw, convertToPositiveInt_ast] at h ⊢
   simpa [bindArgs, eval, Lit.toPy] using h
 
 /-- `_handleInvalid(x)` for every argument: an exception instance or class is raised, anything else returned. -/
 theorem handleInvalid_code (parseInt : Str → Except PyErr Int) (x : Val) :
     runModule parseInt conversions "_handleInvalid" [x] = handleInvalidV x := by
-  rw [link_5, handleInvalid_run]
+  rw [link_5, run, handleInvalid_run]
 
 /-- `_handleInvalid(invalidDefault)` is the hand model's `handleInvalid`. -/
 theorem handleInvalid_code_eq_model (parseInt : Str → Except PyErr Int) (inv : Inv) :
@@ -112,7 +113,7 @@ theorem convertPossibleValues_code_eq_model (parseInt : Str → Except PyErr Int
     (emp : Emp) :
     runModule parseInt conversions "convertPossibleValues" [.py v, ofMembers ms, ofInv inv, ofEmp emp]
       = liftPy (Conv.convertPossibleValues v ms inv emp) := by
-  simp only [link_6, run, convertPossibleValues_ast]
+  simp only [link_6, run, runKw, convertPossibleValues_ast]
   by_cases hv : v = .none
   · subst hv
     cases emp with
@@ -146,7 +147,7 @@ theorem convertToIntRange_code_eq_model (parseInt : Str → Except PyErr Int) (h
     (lo hi : Option Int) (inv : Inv) (emp : Emp) :
     runModule parseInt conversions "convertToIntRange" [.py v, ofOptInt lo, ofOptInt hi, ofInv inv, ofEmp emp]
       = liftPy (Conv.convertToIntRange parseInt v lo hi inv emp) := by
-  simp only [link_7, run, convertToIntRange_ast, Conv.convertToIntRange]
+  simp only [link_7, run, runKw, convertToIntRange_ast, Conv.convertToIntRange]
   by_cases he : isNoneOrEmpty v = true
   · rw [if_pos he]
     rcases isNoneOrEmpty_true v he with rfl | rfl <;> cases emp with
@@ -187,7 +188,7 @@ theorem convertToIntRangeCapped_code_eq_model (parseInt : Str → Except PyErr I
     (lo hi : Option Int) (inv : Inv) (emp : Emp) :
     runModule parseInt conversions "convertToIntRangeCapped" [.py v, ofOptInt lo, ofOptInt hi, ofInv inv, ofEmp emp]
       = liftPy (Conv.convertToIntRangeCapped parseInt v lo hi inv emp) := by
-  simp only [link_8, run, convertToIntRangeCapped_ast, Conv.convertToIntRangeCapped]
+  simp only [link_8, run, runKw, convertToIntRangeCapped_ast, Conv.convertToIntRangeCapped]
   by_cases he : isNoneOrEmpty v = true
   · rw [if_pos he]
     rcases isNoneOrEmpty_true v he with rfl | rfl <;> cases emp with
@@ -227,7 +228,7 @@ theorem convertPossibleValues_code_default (parseInt : Str → Except PyErr Int)
     runModule parseInt conversions "convertPossibleValues" [.py v, ofMembers ms, ofInv inv]
       = liftPy (Conv.convertPossibleValues v ms inv (.val (.str ""))) := by
   have h := convertPossibleValues_code_eq_model parseInt v ms inv (.val (.str ""))
-  simp only [link_6, run, convertPossibleValues_ast] at h ⊢
+  simp only [link_6, run, runKw, convertPossibleValues_ast] at h ⊢
   simpa [bindArgs, eval, Lit.toPy, ofEmp] using h
 
 theorem convertToIntRange_code_default (parseInt : Str → Except PyErr Int) (hpi : ValueErrorOnly parseInt) (v : PyV)
@@ -235,7 +236,7 @@ theorem convertToIntRange_code_default (parseInt : Str → Except PyErr Int) (hp
     runModule parseInt conversions "convertToIntRange" [.py v, ofOptInt lo, ofOptInt hi, ofInv inv]
       = liftPy (Conv.convertToIntRange parseInt v lo hi inv (.val (.str ""))) := by
   have h := convertToIntRange_code_eq_model parseInt hpi v lo hi inv (.val (.str ""))
-  simp only [link_7, run, convertToIntRange_ast] at h ⊢
+  simp only [link_7, run, runKw, convertToIntRange_ast] at h ⊢
   simpa [bindArgs, eval, Lit.toPy, ofEmp] using h
 
 theorem convertToIntRangeCapped_code_default (parseInt : Str → Except PyErr Int) (hpi : ValueErrorOnly parseInt) (v : PyV)
@@ -243,13 +244,13 @@ theorem convertToIntRangeCapped_code_default (parseInt : Str → Except PyErr In
     runModule parseInt conversions "convertToIntRangeCapped" [.py v, ofOptInt lo, ofOptInt hi, ofInv inv]
       = liftPy (Conv.convertToIntRangeCapped parseInt v lo hi inv (.val (.str ""))) := by
   have h := convertToIntRangeCapped_code_eq_model parseInt hpi v lo hi inv (.val (.str ""))
-  simp only [link_8, run, convertToIntRangeCapped_ast] at h ⊢
+  simp only [link_8, run, runKw, convertToIntRangeCapped_ast] at h ⊢
   simpa [bindArgs, eval, Lit.toPy, ofEmp] using h
 
 /-- A call with too few arguments is a `TypeError`, not a value (the interpreter does not totalise). -/
 example (parseInt : Str → Except PyErr Int) :
     runModule parseInt conversions "convertToIntRange" [.py (.int 1)] = .error .typeError := by
-  simp [link_7, run, convertToIntRange_ast, bindArgs]
+  simp [link_7, run, runKw, convertToIntRange_ast, bindArgs]
 
 /-! ### non-vacuity: concrete runs of the dumped code through the interpreter (with the driver's `int()`), values
 off the trivial path; `pyIntOfStr` meets the hypothesis of the two range theorems -/
@@ -297,6 +298,49 @@ example : runModule pyIntOfStr conversions "convertToIntRange"
 example : runModule pyIntOfStr conversions "convertToIntRangeCapped"
     [.py (.str "70000".toList), ofOptInt (some 1), ofOptInt (some 1000), ofInv (.val (.int 1)), ofEmp .invalid]
     = .ok (.py (.int 1000)) := by
+  rfl
+
+/-! ## utils.escapeQuotes / unescapeQuotes (the dump `Gen.Code.utils`) -/
+
+/-- `escapeQuotes(s)` on a text is the hand model of the serialisers (`Fmt.escapeQuotes`, the formatter's copy). -/
+theorem escapeQuotes_code_eq_model (parseInt : Str → Except PyErr Int) (s : Str) :
+    runModule parseInt utils "escapeQuotes" [.py (.str s)] = .ok (.py (.str (Fmt.escapeQuotes s))) := by
+  have h : runModule parseInt utils "escapeQuotes" [.py (.str s)]
+      = run ⟨parseInt, callIn parseInt []⟩ escapeQuotes_ast [.py (.str s)] := rfl
+  rw [h]
+  simp [run, runKw, escapeQuotes_ast, bindArgs, execL, execS, eval, evalList, List.lookup, callMethod, Lit.toPy,
+    replaceAll_quote, fmt_escapeQuotes]
+
+/-- The five hand-written copies of `escapeQuotes` (formatter, DOM view, tree serialiser, pickle, attribute stores)
+are the same function, so the theorem above ties all of them to the code. -/
+theorem escapeQuotes_models_agree (s : Str) :
+    Dom.escapeQuotes s = Fmt.escapeQuotes s ∧ AHP.escQ s = Fmt.escapeQuotes s ∧ Pk.escQ s = Fmt.escapeQuotes s
+      ∧ Attrs.escQ s = Fmt.escapeQuotes s := by
+  simp only [fmt_escapeQuotes, dom_escapeQuotes, tree_escQ, pk_escQ, attrs_escQ, and_self]
+
+/-- `escapeQuotes(v)` on anything that is not a text raises `AttributeError` (no `replace`). -/
+theorem escapeQuotes_code_nontext (parseInt : Str → Except PyErr Int) (v : PyV) (hv : ∀ s, v ≠ .str s) :
+    runModule parseInt utils "escapeQuotes" [.py v] = .error (.other "AttributeError") := by
+  have h : runModule parseInt utils "escapeQuotes" [.py v]
+      = run ⟨parseInt, callIn parseInt []⟩ escapeQuotes_ast [.py v] := rfl
+  rw [h]
+  cases v <;> first
+    | exact absurd rfl (hv _)
+    | simp [run, runKw, escapeQuotes_ast, bindArgs, execL, execS, eval, evalList, List.lookup, callMethod, Lit.toPy]
+
+/-- `unescapeQuotes(s)` on a text: every `&quot;`, left to right, becomes `"` (no hand model uses it; the library does
+not call it either). -/
+theorem unescapeQuotes_code (parseInt : Str → Except PyErr Int) (s : Str) :
+    runModule parseInt utils "unescapeQuotes" [.py (.str s)]
+      = .ok (.py (.str (replaceAll "&quot;".toList ['"'] s))) := by
+  have h : runModule parseInt utils "unescapeQuotes" [.py (.str s)]
+      = run ⟨parseInt, callIn parseInt [escapeQuotes_ast]⟩ unescapeQuotes_ast [.py (.str s)] := rfl
+  rw [h]
+  simp [run, runKw, unescapeQuotes_ast, bindArgs, execL, execS, eval, evalList, List.lookup, callMethod, Lit.toPy]
+
+example : runModule pyIntOfStr utils "escapeQuotes" [.py (.str "a\"b".toList)] = .ok (.py (.str "a&quot;b".toList)) := by
+  rfl
+example : runModule pyIntOfStr utils "unescapeQuotes" [.py (.str "a&quot;b&quot".toList)] = .ok (.py (.str "a\"b&quot".toList)) := by
   rfl
 
 end AHP.C19Code
